@@ -1,11 +1,12 @@
 """C10 - CNF encodings characterise exactly the intended sets (variable-layout clause only)"""
-from . import layout
+from . import layout, litalg
 
 
 def run(ctx):
     layout.rule_variable_layout(ctx)
     layout.rule_selector_above_encoding(ctx)
     layout.rule_clause_templates(ctx)
+    litalg.rule_literal_algebra(ctx)
     ctx.assume("integer arithmetic on usize without overflow for frameworks that fit in memory")
     ctx.assume("rustc's MIR; affine abstract interpretation of sa/affine.py (+, -, <<, exact >>, * by constants, inlined local calls)")
     return (
